@@ -17,7 +17,7 @@ import itertools
 import os
 import subprocess
 
-from mc.common import Ctx, InternalError, VERIF, pmap, rotate
+from mc.common import Ctx, InternalError, VERIF, pmap, rotate, pmap_tagged
 import mc.fd  # noqa: F401
 
 LEVEL = "model_checking"
@@ -178,7 +178,7 @@ def run(ctx: Ctx) -> None:
     ctx.log(f"C++ front end: {so}")
     items = shipped(ctx.tier) + rotate(texts(ctx.tier), ctx.seed)
     ctx.log(f"{len(items)} spec texts")
-    results = pmap(work, [(so, l, t) for l, t in items], chunk=8)
+    results = pmap_tagged(work, [(so, l, t) for l, t in items], chunk=8)
     verdicts = {}
     for r in results:
         verdicts[r["verdict"]] = verdicts.get(r["verdict"], 0) + 1
